@@ -15,7 +15,7 @@ column here: a representative of the expression's equality class (license-expres
   spdxe2e      <project 7 fields> add docName version person org sha1s md5s simplify <tomls…>
                sha1s: `path!sha1` records, md5s: `text!md5` records, simplify: `joined!answer` records ("|"-separated, "~" = none)
                answer: need:<expressions> | needsimp:<joined texts> | usage-error | config-error | duplicate
-                       | doc:<docOk>:<document text>
+                       | doc:<docOk><keysRespectEq>:<document text>
   lintfilee2e  <project 7 fields> cwd args <tomls…>
                args: list of `a|seg/seg…` (absolute, components below the root) or `r|seg/seg…` (relative to cwd)
                answer: need:… | usage-error | config-error | duplicate | ok|exit=N|F.<cat>=…|named=<paths the arguments denote>
@@ -125,14 +125,16 @@ def stepSpdxE2E (fields : List String) : Option String :=
           | .configError => pure "config-error"
           | .duplicate => pure "duplicate"
           | .document t =>
+            -- the decidable hypotheses of C18_e2e_wellformed (docOk) and C18_e2e_file_report (KeysRespectEq, via C18_e2e_hyp)
             let ok := Spec.Spdx.docOk p (spdxReps c o add g pj.tree) (spdxLics pj.tree fd)
-            pure ("doc:" ++ encodeBool ok ++ ":" ++ encodeText t)
+            let kr := Spec.keysRespectEqB c o (Spec.allExprs c g pj.tree)
+            pure ("doc:" ++ encodeBool ok ++ encodeBool kr ++ ":" ++ encodeText t)
       | _, _ =>
         match spdxE2E spdxTable c o add p pj.tree with
         | .usageError => pure "usage-error"
         | .configError => pure "config-error"
         | .duplicate => pure "duplicate"
-        | .document t => pure ("doc:0:" ++ encodeText t)
+        | .document t => pure ("doc:00:" ++ encodeText t)
   | "lintfilee2e" :: flags :: tree :: ignored :: submods :: binaries :: exprs :: dep5 :: cwd :: args :: tomls => do
       let pj ← decodeProj flags tree ignored submods binaries exprs dep5 tomls
       if !pj.need.isEmpty then pure ("need:" ++ encodeList pj.need) else
